@@ -2,14 +2,30 @@
    homogeneity of the derivative integral (finding c11-absolute-threshold).                  *)
 From Coq Require Import ZArith Reals Lra Lia List.
 From Coquelicot Require Import Coquelicot.
-From Interval Require Import Tactic.
 From FF Require Import Base.Ops Inst.RInst Base.RAlg Model.Numeric Model.Gradient Proofs.Foi Proofs.MatAlg Proofs.Gradient.
 Import ListNotations.
 Local Open Scope R_scope.
 
+(* a / b < m 2^-k  from the integer inequality a 2^k < m b *)
+Lemma Rdya_lower m k a b : (0 < b)%Z -> (a * 2 ^ Z.of_nat k < m * b)%Z -> IZR a / IZR b < Rdya m (- Z.of_nat k).
+Proof.
+  intros Hb H. unfold Rdya.
+  assert (Q : powerRZ 2 (- Z.of_nat k) * powerRZ 2 (Z.of_nat k) = 1).
+  { rewrite <- powerRZ_add by lra. replace (- Z.of_nat k + Z.of_nat k)%Z with 0%Z by lia. reflexivity. }
+  assert (S : powerRZ 2 (Z.of_nat k) = IZR (2 ^ Z.of_nat k)).
+  { rewrite <- pow_powerRZ. rewrite <- pow_IZR. reflexivity. }
+  assert (Pk : 0 < powerRZ 2 (Z.of_nat k)) by (apply powerRZ_lt; lra).
+  assert (Pb : 0 < IZR b) by (apply IZR_lt; auto).
+  apply (Rmult_lt_reg_r (IZR b * powerRZ 2 (Z.of_nat k))). apply Rmult_lt_0_compat; auto.
+  replace (IZR a / IZR b * (IZR b * powerRZ 2 (Z.of_nat k))) with (IZR a * powerRZ 2 (Z.of_nat k)) by (field; lra).
+  replace (IZR m * powerRZ 2 (- Z.of_nat k) * (IZR b * powerRZ 2 (Z.of_nat k)))
+    with (IZR m * IZR b * (powerRZ 2 (- Z.of_nat k) * powerRZ 2 (Z.of_nat k))) by ring.
+  rewrite Q, Rmult_1_r, S. rewrite <- !mult_IZR. apply IZR_lt. exact H.
+Qed.
+
 (* The true parameter integral is homogeneous of degree 2 under a change of the time unit
    (x, b -> x/lam, b/lam; dt -> lam dt); with the absolute masks the model is not: the extracted
-   threshold, lam = 2^27, a single level, w = 1, dt = 1.                                         *)
+   threshold, lam = 2^27, a single level, w = 10, dt = 1 (|sin|, |cos| <= 1 suffice).            *)
 Theorem time_scaling_refuted :
   let thr := Rdya 944473296573929 (-73) in
   exists lam w dt : R, 0 < lam /\
@@ -18,23 +34,20 @@ Theorem time_scaling_refuted :
 Proof.
   cbv zeta. set (thr := Rdya 944473296573929 (-73)).
   assert (P : 0 < thr < 1) by (apply (Rdya_small 944473296573929 73); reflexivity).
-  assert (Q : 1 / 134217728 < thr).
-  { unfold thr, Rdya. interval. }
-  exists 134217728, 1, 1. split. lra.
+  assert (Q : 10 / 134217728 < thr) by (apply (Rdya_lower 944473296573929 73 10 134217728); reflexivity).
+  exists 134217728, 10, 1. split. lra.
   unfold deriv_integral_entry. unfold vg, vget; simpl nth.
   change (osub RO 0 0) with (0 - 0). replace (0 - 0) with 0 by ring.
-  change (oadd RO (1 / 134217728) 0) with (1 / 134217728 + 0). change (oadd RO 1 0) with (1 + 0).
+  change (oadd RO (10 / 134217728) 0) with (10 / 134217728 + 0). change (oadd RO 10 0) with (10 + 0).
   rewrite !Rplus_0_r.
   rewrite ltabs_true by (rewrite Rabs_R0; lra). rewrite !cite_true.
   unfold di_tmp1.
-  rewrite (ltabs_true (1 / 134217728)) by (rewrite Rabs_right by lra; exact Q).
-  rewrite (ltabs_false 1) by (rewrite Rabs_R1; lra).
-  rewrite cite_true, cite_false. rewrite di_tmp2_unmasked by (rewrite Rabs_R1; lra).
+  rewrite (ltabs_true (10 / 134217728)) by (rewrite Rabs_right by lra; exact Q).
+  rewrite (ltabs_false 10) by (rewrite Rabs_right by lra; lra).
+  rewrite cite_true, cite_false. rewrite di_tmp2_unmasked by (rewrite Rabs_right by lra; lra).
   intros H. apply (f_equal fst) in H. revert H. unfold o2; simpl. rewrite !Rmult_1_l, !Rmult_1_r.
   intros H.
-  assert (E : sin 1 + (cos 1 - 1) = 1 / 2).
-  { apply (Rmult_eq_reg_l (134217728 * 134217728)); [|lra].
-    replace (sin 1 / 1 + (cos 1 / 1 - 1 / 1) / 1) with (sin 1 + (cos 1 - 1)) in H by field.
-    rewrite <- H. field. }
-  revert E. interval_intro (sin 1 + (cos 1 - 1)) upper. lra.
+  assert (E : sin 10 / 10 + (cos 10 / 10 - 1 / 10) / 10 = 1 / 2).
+  { apply (Rmult_eq_reg_l (134217728 * 134217728)); [|lra]. rewrite <- H. field. }
+  generalize (SIN_bound 10) (COS_bound 10). intros. lra.
 Qed.
